@@ -176,7 +176,25 @@ fn main() {
             }
         };
         let (_, stable) = lrtable::from_yacc(&grm, lrtable::Minimiser::Pager).unwrap();
-        let mut rt_ld = LRNonStreamingLexerDef::<LT>::from_str(c.l).unwrap();
+        let mut rt_ld = if c.lflags.is_empty() {
+            LRNonStreamingLexerDef::<LT>::from_str(c.l).unwrap()
+        } else {
+            let mut lf = lrlex::DEFAULT_LEX_FLAGS;
+            for (f, v) in c.lflags {
+                match *f {
+                    "case_insensitive" => lf.case_insensitive = Some(*v),
+                    "dot_matches_new_line" => lf.dot_matches_new_line = Some(*v),
+                    "multi_line" => lf.multi_line = Some(*v),
+                    "posix_escapes" => lf.posix_escapes = Some(*v),
+                    "swap_greed" => lf.swap_greed = Some(*v),
+                    "ignore_whitespace" => lf.ignore_whitespace = Some(*v),
+                    "unicode" => lf.unicode = Some(*v),
+                    "allow_wholeline_comments" => lf.allow_wholeline_comments = Some(*v),
+                    _ => {}
+                }
+            }
+            LRNonStreamingLexerDef::<LT>::new_with_options(c.l, lf).unwrap()
+        };
         let map: std::collections::HashMap<&str, u32> = grm.tokens_map().into_iter().map(|(k, v)| (k, v.as_storaget())).collect();
         rt_ld.set_rule_ids(&map);
         let ct_ld = (c.lexerdef)();
